@@ -128,22 +128,28 @@ def judgeConn (d : DictRt) (n : Nat) (useMux coal : Bool) (evTok : String) (impl
 /-- `conn accept ev=A,T,F,U,P,... => A:served=1,run ; T:ms=5,run ; P:stopped,lclosed=1 ; ... ; alive=k/n`.
     Sleeps are compared as ranges: `time.Sleep(d)` lasts at least `d`; the upper slack covers
     scheduling on a loaded machine. -/
-def judgeAccept (evTok : String) (impl : List String) : Judged :=
+def judgeAccept (evTok : String) (impl : List String) (hold : Bool := false) : Judged :=
   let evs := evTok.splitOn ","
   let implOut := " ".intercalate impl
   let groups := implOut.splitOn " ; "
   let step := fun (acc : LS × List String × List String) (eg : String × String) =>
     let (s, outs, fails) := acc
     let (e, g) := eg
-    let ev : Option LEv := if e = "A" then some .acceptOk else if e = "T" ∨ e = "F" ∨ e = "U" then some .acceptTemp else if e = "P" then some .acceptPerm else none
+    let ev : Option LEv := if e = "A" ∨ e = "S" then some .acceptOk else if e = "T" ∨ e = "F" ∨ e = "U" then some .acceptTemp else if e = "P" then some .acceptPerm else none
     match ev with
-    | none => (s, outs, fails)
+    | none =>
+      -- X: a peer leaves; nothing to do with the listener (the harness reports that it did it)
+      if e = "X" then (s, outs ++ [g], fails) else (s, outs, fails)
     | some ev =>
       match s.step ev with
       | none => (s, outs ++ ["skip"], if g = "skip" then fails else fails ++ ["C15:listener-state-differs"])
       | some s' =>
         match ev with
         | .acceptOk =>
+          if e = "S" then
+            -- a peer that never starts its TLS handshake: the accept loop goes on all the same
+            (s', outs ++ ["S:run"], if g = "S:run" then fails else fails ++ ["C15:silent-peer-stalls-the-accept-loop"])
+          else
           let want := s!"A:served=1,run"
           (s', outs ++ [want], if g = want then fails else fails ++ [if g.startsWith "A:served=0" then "C15:accepted-connection-not-served" else "C15:server-stopped-accepting"])
         | .acceptTemp =>
@@ -160,11 +166,14 @@ def judgeAccept (evTok : String) (impl : List String) : Judged :=
           let want := "P:stopped,lclosed=1"
           (s', outs ++ [want], if g = want then fails else fails ++ ["C15:permanent-accept-error-handling-differs"])
   let (s, outs, fails) := (evs.zip groups).foldl step ({}, [], [])
-  let wantAlive := s!"alive={s.spawned}/{s.spawned}"
+  let left := ((evs.zip groups).filter (fun p => (p.1 = "X" ∧ p.2 = "X:done") ∨ p.1 = "S")).length
+  let wantAlive := s!"alive={s.spawned - left}/{s.spawned - left}"
   let lastG := groups.getLast?.getD ""
   let fails := if lastG = wantAlive then fails else fails ++ ["C15:accepted-connections-no-longer-served"]
+  -- with a handler held on the first connection every one of these is also a C08 matter
+  let fails := if hold ∧ ¬ fails.isEmpty then fails ++ ["C08:blocked-handler-stalls-other-connections-or-the-listener"] else fails
   let fails := if groups.length = evs.length + 1 then fails else fails ++ ["C15:event-count-differs"]
-  { model := " ; ".intercalate (outs ++ [wantAlive]), fails := fails.eraseDups.take 3,
+  { model := " ; ".intercalate (outs ++ [wantAlive]), fails := fails.eraseDups.take 4,
     tags := [s!"accept events={evs.length} spawned={s.spawned} temp={s.slept.length} maxsleep={s.slept.foldl max 0} stopped={!s.running}"] }
 
 /-- `conn lw ev=O,Q0,X0E,W0,.. => res=ok,ok,.. | c0=<id.id> c1=..`: which transport the writes
